@@ -269,5 +269,5 @@ MonReg reg({"C13", "exploration",
 			"half-rounded where the vertex descriptor says half, BSTriShape UVs half-rounded, byte-quantised normals/tangents/colours within 1/255, eye data and bitangent.x exact), then "
 			"each setter (positions, UVs, normals, tangents, bitangents, colours, eye data, triangles, bounds) followed by all getters: value within the storage quantisation, every "
 			"per-vertex array keeps the vertex count; again after raw and after default save+load. Over-long inputs must be clamped to the 16-bit limits. Non-trivial = every case.",
-			[] { return (size_t)360 * (g_cfg.tier ? 24 : 1); }, run, 12, 300.0, false, false, nullptr});
+			[] { return (size_t)360 * (g_cfg.tier ? 24 : 2); }, run, 12, 300.0, false, false, nullptr});
 } // namespace
